@@ -86,8 +86,9 @@ acel.processor.EventProcessor = Probe
 for step in plan:
     os.chdir(step["cwd"])
     report.append({"hold_before_run": len(barrier._main_barrier_context.hold)})
-    if step.get("out"):
+    if step.get("out") and step.get("clean", True):
         # the user removes the results of the previous analysis before starting the next one with the same -o
+        # (clean = False: the user does not - files the new run writes must not depend on what lies there already)
         os.makedirs(step["out"], exist_ok=True)
         for fn in os.listdir(step["out"]):
             if os.path.isfile(os.path.join(step["out"], fn)):
@@ -419,6 +420,9 @@ def judge_history(d, desc, rc_fresh):
         fails.append({"input": desc, "expected": "empty barrier hold when the processor of a run is built",
                       "observed": rep, "signature": {"kind": "stale_barrier_hold_at_run_start"}})
     a, b = canon(os.path.join(d, "snap_hist")), canon(os.path.join(d, "out_fresh"))
+    if desc.get("old_results_left"):
+        # files of earlier runs that this run does not write are still there, as the user left them: not this run's
+        a = {k: v for k, v in a.items() if k in b}
     if rc_fresh != 0 and rep[-1].get("rc") != 0:
         return fails or "skipped"
     if a != b or rep[-1].get("rc") != rc_fresh:
@@ -463,6 +467,15 @@ def run(ctx):
                 "mlog" if k % 9 == 4 else None
             s, inp = write_scn(r, d, kind=kind)
             opts = scn_opts(r, s)
+            if kind == "mcast" and k % 12 == 3:
+                # every second multicast scenario draws flow arrows, whatever the random stream says (arrows between
+                # groups that are in flight together get their ids when the stages are drained: the order of that may
+                # not depend on the hash seed, and -I may not lose them); nothing may filter them out again
+                opts = [o for o in opts if o not in ("--flow",)]
+                if "-F" in opts:
+                    i = opts.index("-F")
+                    del opts[i:i + 2]
+                opts.append("--flow")
             dist["scenario_kinds"][str(kind)] = dist["scenario_kinds"].get(str(kind), 0) + 1
             for o in opts:
                 dist["options"][o] = dist["options"].get(o, 0) + 1
@@ -549,7 +562,10 @@ def run(ctx):
             os.makedirs(os.path.join(d, "out_fresh"), exist_ok=True)
             # the runs of one process write to the SAME output name (what the default -o does) or each to its own
             shared = r.random() < 0.6
+            # ... and with the same output name the old results are either removed first or simply left where they are
+            clean = (not shared) or r.random() < 0.5
             dist["histories_same_output"] += shared
+            dist["histories_old_results_left"] = dist.get("histories_old_results_left", 0) + (not clean)
             dist["histories_target_multi_log"] += "," in s.meta.get("clog", "")
             plan, hdesc = [], []
             for j in range(r.randrange(1, 4)):
@@ -574,18 +590,19 @@ def run(ctx):
                 out2 = "../out_hist" if shared else "o"
                 os.makedirs(os.path.join(dd, "o"), exist_ok=True)
                 plan.append({"cwd": dd, "argv": argv_for(s2, inp2, out2, scn_opts(r, s2), dd, r),
-                             "out": os.path.normpath(os.path.join(dd, out2))})
+                             "out": os.path.normpath(os.path.join(dd, out2)), "clean": clean})
                 hdesc.append({"kind": kind, "files": s2.files, "freq": s2.freq, "argv": plan[-1]["argv"],
                               "logs": s2.meta.get("logs", {})})
             if r.random() < 0.15:
                 # the target itself once before ("run repeatedly"), same output name
-                plan.append({"cwd": d, "argv": targ, "out": os.path.join(d, "out_hist")})
+                plan.append({"cwd": d, "argv": targ, "out": os.path.join(d, "out_hist"), "clean": clean})
                 hdesc.append({"kind": "same_scenario", "files": {}, "freq": s.freq, "argv": targ, "logs": {},
                               "in_target_dir": True})
-            plan.append({"cwd": d, "argv": targ, "out": os.path.join(d, "out_hist"), "snap": os.path.join(d, "snap_hist")})
+            plan.append({"cwd": d, "argv": targ, "out": os.path.join(d, "out_hist"), "snap": os.path.join(d, "snap_hist"),
+                         "clean": clean})
             pf = os.path.join(d, "plan.json")
             json.dump(plan, open(pf, "w"))
-            plans.append((d, pf, s, opts, fresh, hdesc, shared))
+            plans.append((d, pf, s, opts, fresh, hdesc, (shared, clean)))
         wf = os.path.join(work, "worker.py")
         open(wf, "w").write(WORKER)
 
@@ -602,7 +619,7 @@ def run(ctx):
             dist["histories"] += 1
             desc = {"target": {"files": s.files, "freq": s.freq, "opts": opts, "logs": s.meta.get("logs", {}),
                                "argv": _set_out(fresh, "@OUT")},
-                    "history": hdesc, "shared_output": shared}
+                    "history": hdesc, "shared_output": shared[0], "old_results_left": not shared[1]}
             f = judge_history(d, desc, rc)
             if f == "skipped":
                 dist["skipped_failing_scenarios"] = dist.get("skipped_failing_scenarios", 0) + 1
@@ -719,11 +736,12 @@ def replay(ctx, payload):
                 _write_logs(dd, h.get("logs", {}))
                 os.makedirs(os.path.join(dd, "o"), exist_ok=True)
                 out = h["argv"][h["argv"].index("-o") + 1]
-                plan.append({"cwd": dd, "argv": h["argv"], "out": os.path.normpath(os.path.join(dd, os.path.dirname(out)))})
+                plan.append({"cwd": dd, "argv": h["argv"], "out": os.path.normpath(os.path.join(dd, os.path.dirname(out))),
+                             "clean": not f["input"].get("old_results_left")})
             for o in ("out_hist", "out_fresh"):
                 os.makedirs(os.path.join(d, o), exist_ok=True)
             plan.append({"cwd": d, "argv": _set_out(t["argv"], "out_hist"), "out": os.path.join(d, "out_hist"),
-                         "snap": os.path.join(d, "snap_hist")})
+                         "snap": os.path.join(d, "snap_hist"), "clean": not f["input"].get("old_results_left")})
             json.dump(plan, open(os.path.join(d, "plan.json"), "w"))
             open(os.path.join(work, "worker.py"), "w").write(WORKER)
             env = dict(os.environ, AIU_REPO=coqrun.REPO, PYTHONHASHSEED="0")
